@@ -676,6 +676,12 @@ class SymReal(_SymNum):
     def astype(self, t):
         return self
 
+    def copy(self):
+        return self
+
+    def item(self):
+        return self
+
     @property
     def shape(self):
         return ()
